@@ -107,6 +107,10 @@ func (v DenseIntVector) ReverseOrder() {
   }
 }
 func (v DenseIntVector) Slice(i, j int) Vector {
+  // do not expose elements beyond the end of a sub-slice
+  if j > len(v) {
+    panic("index out of bounds")
+  }
   return v[i:j]
 }
 func (v DenseIntVector) Swap(i, j int) {
@@ -160,6 +164,9 @@ func (v DenseIntVector) ConstAt(i int) ConstScalar {
   return Int{&v[i]}
 }
 func (v DenseIntVector) ConstSlice(i, j int) ConstVector {
+  if j > len(v) {
+    panic("index out of bounds")
+  }
   return v[i:j]
 }
 func (v DenseIntVector) AsConstMatrix(n, m int) ConstMatrix {
